@@ -55,6 +55,14 @@ CHECKS = {
          "Message.tla's retained-storage model checked for NoLeak over all histories (TLC); all (previous use, next use) pairs enumerated by TLC and driven on poison-filled real Messages against a fresh twin; a TLA+ trace specification requires reused = twin, content = reference parse of its own bytes, and immunity to caller-side overwrites",
          "Twin equality and copy semantics judged by TLC for every pair of uses (6 kinds x sizes covering every padding residue and shorter/equal/longer relations) and sampled triples; CloneTo/MarshalBinary/GobEncode copies stay intact when the source changes.",
          "Trusted: poison patterns make leaks visible; TLC; harness."),
+ "C16": (True, "DESIGN.md §4 C16",
+         "ParseURI transcribed into TLA+ (UriCore/UriImpl: url.Parse opaque/query split, net.SplitHostPort case by case, default-port retry); TLC checks bounded retry and termination (liveness) for every abstract string up to a length bound; every such string is run through the real ParseURI in isolated worker processes and a TLA+ trace specification requires returned-or-error (R) and agreement with UriImpl (I); native sweeps and long/random inputs summarised per batch",
+         "Termination and crash-freedom observed per input in a supervised worker process (stack limit, progress watchdog) for every abstract string (x2 concrete representatives), for all strings over a 20-symbol alphabet up to length 4/5 after each scheme, and for random/mutated/very long inputs; the transcribed parser is model-checked to terminate with at most one retry.",
+         "Trusted: the worker supervision protocol, TLC, the transcription (its disagreement with the code is drift, not a verdict)."),
+ "C17": (True, "DESIGN.md §4 C17",
+         "RFC 7064/7065 component-level reference (UriRef) in TLA+; TLC enumerates the complete component product and exports each URI; the real ParseURI/String/DialURI (injected transport.Net, first-bytes classification, in-memory TLS servers) are recorded and a TLA+ trace specification checks defaults, must-accept/must-reject classes, field constraints, round trip and the dial plan",
+         "Every URI of the component product (5040) and 3 mutations of each judged by TLC against UriRef; all hand-made scheme/transport combinations and every parser-producible shape dialled; secure connections sharing a DialConfig must each authenticate their own host.",
+         "Trusted: UriRef's classification as the reading of the property; wire-level observation of the wrapping; TLC; harness."),
 }
 
 ALL = ["C%02d" % i for i in range(1, 21)]
